@@ -1187,3 +1187,145 @@ Proof.
       rewrite (for_push_outer (fun col row => cell row col)). cbn [app]. destruct (map_res _ _) as [cols|w|w]; reflexivity.
 Qed.
 (* END *)
+
+(* ---------- mul.rs: dot_product and multiply ---------- *)
+(* BEGIN Free_dot_product *)
+(* followed by unwrap_unchecked, as multiply uses it, it is the model's dot_product (UB on empty slices) *)
+Lemma gen_Free_dot_product {L R U} c (mul : L -> R -> U) (add : U -> U -> U) l r :
+  (let* o := G_Free_dot_product c mul add l r in unwrap_unchecked o) = dot_product mul add l r.
+Proof.
+  unfold G_Free_dot_product, dot_product, reduce_opt. cbn [bind].
+  replace (map (fun it : L * R => let '(left_, right_) := it in mul left_ right_) (combine l r))
+     with (map (fun p : L * R => mul (fst p) (snd p)) (combine l r)) by (apply map_ext; intros [x y]; reflexivity).
+  destruct (map _ (combine l r)); reflexivity.
+Qed.
+(* END *)
+(* BEGIN Matrix_multiply *)
+Lemma for_push_inner_m {X} (f : Z -> res X) : forall (l : list Z) (d : list X),
+  for_res l d (fun col d => let* e := f col in Val (d ++ [e])) = let* ys := map_res f l in Val (d ++ ys).
+Proof.
+  induction l as [|i l IH]; intros d; cbn [for_res map_res bind]; [rewrite app_nil_r; reflexivity|].
+  destruct (f i) as [e|w|w]; cbn [bind]; try reflexivity. rewrite IH.
+  destruct (map_res f l) as [ys|w|w]; cbn [bind]; try reflexivity. rewrite <- app_assoc. reflexivity.
+Qed.
+Lemma for_push_outer_m {X} (f : Z -> Z -> res X) (inner : list Z) : forall (l : list Z) (d : list X),
+  for_res l d (fun row d => for_res inner d (fun col d => let* e := f row col in Val (d ++ [e])))
+  = let* rows := map_res (fun row => map_res (fun col => f row col) inner) l in Val (d ++ concat rows).
+Proof.
+  induction l as [|i l IH]; intros d; cbn [for_res map_res bind concat]; [rewrite app_nil_r; reflexivity|].
+  rewrite (for_push_inner_m (f i) inner d).
+  destruct (map_res (f i) inner) as [ys|w|w]; cbn [bind]; try reflexivity. rewrite IH.
+  destruct (map_res _ l) as [rows|w|w]; cbn [bind concat]; try reflexivity. rewrite <- app_assoc. reflexivity.
+Qed.
+
+Lemma bind_val_id_m {X} (r : res X) : (let* x := r in Val x) = r.
+Proof. destruct r; reflexivity. Qed.
+Lemma for_res_ext_n_m {S} (l : list Z) (s : S) f g : (forall i s, f i s = g i s) -> for_res l s f = for_res l s g.
+Proof. intros E. revert s. induction l as [|i l IH]; intros s; cbn [for_res]; [reflexivity|]. rewrite E. destruct (g i s); cbn [bind]; auto. Qed.
+Lemma gen_Matrix_multiply {L R U} c esL esR esU (dflt : U) (mul : L -> R -> U) (add : U -> U -> U) (a : matrix L) (b : matrix R) :
+  0 <= imax c ->
+  G_Matrix_multiply c esL esR esU (S (length (m_data a))) (S (length (m_data b))) dflt mul add a b =
+    multiply c esL esR esU dflt mul add a b.
+Proof.
+  intros Hc. unfold G_Matrix_multiply, multiply, multiplication_like_operation, mul_decision, is_mul_conformable, decide_shape.
+  rewrite gen_Matrix_ensure_multiplication_like_operation_conformable. cbn [bind mview f_Matrix_order f_Matrix_shape].
+  destruct (is_multiplication_conformable (m_order a) (m_shape a) (m_order b) (m_shape b)); cbn [negb bind]; [|reflexivity].
+  rewrite !gen_Matrix_nrows, !gen_Matrix_ncols. cbn [bind mview f_Matrix_order f_Matrix_shape G_Shape_new].
+  rewrite gen_Shape_try_to_axis_shape. cbn [bind]. unfold nrows, ncols.
+  destruct (Shape_try_to_axis_shape c _ (m_order a)) as [s|e]; [|reflexivity].
+  rewrite gen_AxisShape_size. destruct (AxisShape_size c s) as [n|w|w]; cbn [bind]; try reflexivity.
+  rewrite gen_Matrix_check_size by exact Hc. cbn [bind]. destruct (check_size c esU n) as [sz|e]; [|reflexivity].
+  cbv zeta. cbn [bind mview f_Matrix_order f_Matrix_shape].
+  destruct (AxisShape_ncols (m_shape a) (m_order a) =? 0).
+  - unfold vec_resize_with, vec_with_capacity. cbn [zlen length Z.of_nat app].
+    destruct (sz <=? 0) eqn:Lz; [|rewrite Z.sub_0_r; reflexivity].
+    unfold zfirstn, zrepeat. replace (Z.to_nat sz) with 0%nat by lia. reflexivity.
+  - rewrite gen_Matrix_set_order_model. destruct (set_order c esL a RowMajor) as [a'|w|w]; cbn [bind]; try reflexivity.
+    rewrite gen_Matrix_set_order_model. destruct (set_order c esR b ColMajor) as [b'|w|w]; cbn [bind]; try reflexivity.
+    unfold vec_with_capacity, vec_push.
+    set (cell := fun row col => let* l := get_nth_major_axis_vector c a' row in let* r := get_nth_major_axis_vector c b' col in dot_product mul add l r).
+    destruct (m_order a).
+    + rewrite (for_res_ext_n_m _ _ _ (fun row d => for_res (zseq (AxisShape_ncols (m_shape b) (m_order b))) d (fun col d => let* e := cell row col in Val (d ++ [e])))).
+      2:{ intros row d. rewrite bind_val_id_m. apply for_res_ext_n_m. intros col d'. unfold cell. rewrite !gen_Matrix_get_nth_major_axis_vector.
+          destruct (get_nth_major_axis_vector c a' row) as [l|w|w]; cbn [bind]; try reflexivity.
+          all: try (destruct (get_nth_major_axis_vector c b' col) as [r|w|w]; cbn [bind]; try reflexivity;
+                    rewrite <- (gen_Free_dot_product c mul add l r); destruct (G_Free_dot_product c mul add l r) as [o|w|w]; cbn [bind]; try reflexivity;
+                    destruct (unwrap_unchecked o); reflexivity). }
+      rewrite (for_push_outer_m cell). cbn [app]. destruct (map_res _ _) as [rows|w|w]; reflexivity.
+    + rewrite (for_res_ext_n_m _ _ _ (fun col d => for_res (zseq (AxisShape_nrows (m_shape a) ColMajor)) d (fun row d => let* e := cell row col in Val (d ++ [e])))).
+      2:{ intros col d. rewrite bind_val_id_m. apply for_res_ext_n_m. intros row d'. unfold cell. rewrite !gen_Matrix_get_nth_major_axis_vector.
+          destruct (get_nth_major_axis_vector c a' row) as [l|w|w]; cbn [bind]; try reflexivity.
+          all: try (destruct (get_nth_major_axis_vector c b' col) as [r|w|w]; cbn [bind]; try reflexivity;
+                    rewrite <- (gen_Free_dot_product c mul add l r); destruct (G_Free_dot_product c mul add l r) as [o|w|w]; cbn [bind]; try reflexivity;
+                    destruct (unwrap_unchecked o); reflexivity). }
+      rewrite (for_push_outer_m (fun col row => cell row col)). cbn [app]. destruct (map_res _ _) as [cols|w|w]; reflexivity.
+Qed.
+(* END *)
+
+(* ---------- iter.rs: the element iterators (the items they hand out, in order) ---------- *)
+(* BEGIN Matrix_iter_elements *)
+Lemma gen_Matrix_iter_elements {L} c (m : matrix L) : G_Matrix_iter_elements c m = Val (m_data m).
+Proof. reflexivity.
+Qed.
+(* END *)
+(* BEGIN Matrix_iter_elements_mut *)
+Lemma gen_Matrix_iter_elements_mut {L} c (m : matrix L) : G_Matrix_iter_elements_mut c m = Val (m_data m).
+Proof. reflexivity.
+Qed.
+(* END *)
+(* BEGIN Matrix_into_iter_elements *)
+Lemma gen_Matrix_into_iter_elements {L} c (m : matrix L) : G_Matrix_into_iter_elements c m = Val (m_data m).
+Proof. reflexivity.
+Qed.
+(* END *)
+(* BEGIN Matrix_iter_elements_with_index *)
+Lemma map_res_ext_i0 {X Y} (f g : X -> res Y) (l : list X) : (forall x, f x = g x) -> map_res f l = map_res g l.
+Proof. intros E. induction l as [|x l IH]; cbn [map_res]; [reflexivity|]. rewrite E, IH. reflexivity. Qed.
+Lemma gen_with_index_items0 {L} c (m : matrix L) :
+  (let* d := map_res (fun it => let '(index, element) := it in
+                let* r := G_Index_from_flattened c index (m_order m) (m_shape m) in Val (r, element)) (zenumerate (m_data m)) in Val d)
+  = iter_elements_with_index m.
+Proof.
+  unfold iter_elements_with_index, zenumerate, size.
+  rewrite (map_res_ext_i0 _ (fun ia => let* ix := Index_from_flattened (fst ia) (m_order m) (m_shape m) in Val (ix, snd ia))).
+  2:{ intros [i e]. cbn [fst snd]. rewrite gen_Index_from_flattened. reflexivity. }
+  destruct (map_res _ _); reflexivity.
+Qed.
+Lemma gen_Matrix_iter_elements_with_index {L} c (m : matrix L) : G_Matrix_iter_elements_with_index c m = iter_elements_with_index m.
+Proof. unfold G_Matrix_iter_elements_with_index. cbv zeta. apply gen_with_index_items0.
+Qed.
+(* END *)
+(* BEGIN Matrix_iter_elements_mut_with_index *)
+Lemma map_res_ext_i1 {X Y} (f g : X -> res Y) (l : list X) : (forall x, f x = g x) -> map_res f l = map_res g l.
+Proof. intros E. induction l as [|x l IH]; cbn [map_res]; [reflexivity|]. rewrite E, IH. reflexivity. Qed.
+Lemma gen_with_index_items1 {L} c (m : matrix L) :
+  (let* d := map_res (fun it => let '(index, element) := it in
+                let* r := G_Index_from_flattened c index (m_order m) (m_shape m) in Val (r, element)) (zenumerate (m_data m)) in Val d)
+  = iter_elements_with_index m.
+Proof.
+  unfold iter_elements_with_index, zenumerate, size.
+  rewrite (map_res_ext_i1 _ (fun ia => let* ix := Index_from_flattened (fst ia) (m_order m) (m_shape m) in Val (ix, snd ia))).
+  2:{ intros [i e]. cbn [fst snd]. rewrite gen_Index_from_flattened. reflexivity. }
+  destruct (map_res _ _); reflexivity.
+Qed.
+Lemma gen_Matrix_iter_elements_mut_with_index {L} c (m : matrix L) : G_Matrix_iter_elements_mut_with_index c m = iter_elements_with_index m.
+Proof. unfold G_Matrix_iter_elements_mut_with_index. cbv zeta. apply gen_with_index_items1.
+Qed.
+(* END *)
+(* BEGIN Matrix_into_iter_elements_with_index *)
+Lemma map_res_ext_i2 {X Y} (f g : X -> res Y) (l : list X) : (forall x, f x = g x) -> map_res f l = map_res g l.
+Proof. intros E. induction l as [|x l IH]; cbn [map_res]; [reflexivity|]. rewrite E, IH. reflexivity. Qed.
+Lemma gen_with_index_items2 {L} c (m : matrix L) :
+  (let* d := map_res (fun it => let '(index, element) := it in
+                let* r := G_Index_from_flattened c index (m_order m) (m_shape m) in Val (r, element)) (zenumerate (m_data m)) in Val d)
+  = iter_elements_with_index m.
+Proof.
+  unfold iter_elements_with_index, zenumerate, size.
+  rewrite (map_res_ext_i2 _ (fun ia => let* ix := Index_from_flattened (fst ia) (m_order m) (m_shape m) in Val (ix, snd ia))).
+  2:{ intros [i e]. cbn [fst snd]. rewrite gen_Index_from_flattened. reflexivity. }
+  destruct (map_res _ _); reflexivity.
+Qed.
+Lemma gen_Matrix_into_iter_elements_with_index {L} c (m : matrix L) : G_Matrix_into_iter_elements_with_index c m = iter_elements_with_index m.
+Proof. unfold G_Matrix_into_iter_elements_with_index. cbv zeta. apply gen_with_index_items2.
+Qed.
+(* END *)
